@@ -63,8 +63,8 @@ m("C03", "equal-reader-off-by-one", "src/util/equal_reader.rs",
         } else {
             &mut buf[..self.size]
         };""", "C03.2|")
-m("C03", "buffer-threshold-2048", "src/request.rs",
-  """        } else if content_length <= 1024 && !expects_continue {""", """        } else if content_length < 1024 && !expects_continue {""", ["C03.1|", "C11.2|"])
+m("C11", "small-body-threshold-below-1024", "src/request.rs",
+  """        } else if content_length <= 1024 && !expects_continue {""", """        } else if content_length < 1024 && !expects_continue {""", "C11.2|")
 # ---- C04
 m("C04", "304-sends-body", "src/response.rs",
   """                100..=199 | 204 | 304 => true,""", """                100..=199 | 204 => true,""", "C04.1|")
@@ -139,19 +139,21 @@ m("C07", "pop-waits-before-looking", "src/util/messages_queue.rs",
         }""", "C07.2|")
 # ---- C08
 m("C08", "task-runs-under-lock", "src/util/task_pool.rs",
-  """                    task
-                };
-
-                task();""", """                    task();
-                    continue;
-                };
-
-                task();""", "C08.2|")
+  """                        if let Some(poped_task) = todo.pop_front() {
+                            task = poped_task;
+                            break;
+                        }""", """                        if let Some(mut poped_task) = todo.pop_front() {
+                            // run it right away
+                            poped_task();
+                            continue;
+                        }""", "C08.2|")
 m("C08", "retire-with-work-queued", "src/util/task_pool.rs",
   """                        if !received && todo.is_empty() {""", """                        if !received {""", "C08.4|")
 # ---- C09
 m("C09", "drain-reads-once", "src/util/equal_reader.rs",
-  """        while remaining_to_read > 0 {""", """        if remaining_to_read > 0 {""", ["C09.2|", "C13.1|"])
+  """        while remaining_to_read > 0 {""", """        let mut first = true;
+        while remaining_to_read > 0 && first {
+            first = false;""", ["C09.2|", "C13.1|"])
 m("C09", "reader-state-lost-after-wait", "src/util/sequential.rs",
   """        let result = reader.read(buf);
         self.inner = SequentialReaderInner::MyTurn(reader);
@@ -245,11 +247,11 @@ m("C15", "flush-error-unfiltered", "src/request.rs",
     }""", "C15.3|")
 # ---- C16
 m("C16", "content-length-lenient-again", "src/request.rs",
-  """                if !value.bytes().all(|b| b.is_ascii_digit()) {
-                    return Err(RequestCreationError::InvalidContentLength);
-                }""", """                if value.is_empty() {
-                    return Err(RequestCreationError::InvalidContentLength);
-                }""", "C16.3|")
+  """        if !value.bytes().all(|b| b.is_ascii_digit()) {
+            return Err(RequestCreationError::InvalidContentLength);
+        }""", """        if value.is_empty() {
+            return Err(RequestCreationError::InvalidContentLength);
+        }""", "C16.3|")
 m("C16", "header-line-trimmed-start", "src/client.rs",
   """                    headers.push(match FromStr::from_str(line.as_str().trim_end()) {""", """                    headers.push(match FromStr::from_str(line.as_str().trim_start()) {""", "C16.2|")
 m("C16", "invalid-length-maps-to-io-error", "src/client.rs",
@@ -350,8 +352,6 @@ m("C20", "timed-wait-comparison-flipped", "src/util/task_pool.rs",
 m("C20", "pool-drop-does-not-wake", "src/util/task_pool.rs",
   """            .store(999_999_999, Ordering::Release);
         self.sharing.condvar.notify_all();""", """            .store(999_999_999, Ordering::Release);""", "C20.4|")
-m("C20", "idle-period-doubled", "src/util/task_pool.rs",
-  """                                    .wait_timeout(todo, Duration::from_millis(5000))""", """                                    .wait_timeout(todo, Duration::from_millis(50000))""", "C20.4|")
 
 def main():
     out_index = {}
